@@ -415,6 +415,28 @@ def run(repo: Repo, chk: Check, thorough: bool = False) -> None:
                f'{len(sites)} emission(s): ' + '; '.join(sites)[:200] if len(sites) >= want else
                f'{len(sites)} privacy-guarded emission(s) of the private marker, {want} kinds of listing entry are built here: a private object is '
                f'listed without the marker the public/private toggle relies on ({"; ".join(sites)[:160]})', f.loc)
+    # where the marker is part of a class string the function RETURNS (a `class_` renderer), it has to be decided on every path that returns: each
+    # return value depends on the privacy test (data or control), or the return sits behind it.  `if child is documented: return "thisobject"` placed
+    # before the privacy decision answers for a private object without the marker - whichever way the marker itself is spelled
+    def _is_priv_node(n_: ast.AST) -> bool:
+        return (isinstance(n_, ast.Attribute) and n_.attr in ('isPrivate', 'privacyClass')) or \
+            (isinstance(n_, ast.Call) and call_name(n_) in ('isPrivate', 'isClassNodePrivate'))
+    n_ret = 0
+    for q in sorted(MARKER_SITES):
+        f = repo.func(q)
+        ann = getattr(f.node, 'returns', None)
+        if not (ann is not None and norm(ann) == 'str'):
+            continue
+        cf_m = CFG(f)
+        for r in [x for x in f.walk() if isinstance(x, ast.Return) and x.value is not None]:
+            n_ret += 1
+            deps = _local_dependencies(f, r.value)
+            decided = any(_is_priv_node(d_) for d_ in deps) or any(any(_is_priv_node(x_) for x_ in ast.walk(t_)) for t_, _ in cf_m.scenario_facts(r))
+            chk.ob('R12.4', f'{q} :: every returned class string has had the privacy decision', decided,
+                   f'`{norm(r)[:50]}` depends on the privacy test' if decided else
+                   f'`{norm(r)[:60]}` returns before / without the privacy test: the entry of a private object that takes this path carries no `private` marker '
+                   '(e.g. the sidebar item of the documented object itself)', repo.loc(f.mod, r))
+    chk.stats['marker_return_sites'] = n_ret
     # the table above was confirmed by hand; this part is derived: every function of the writer that builds a list item / row / block
     # around a taglink(...) is building listing entries and must emit the marker too
     for f in sorted(repo.funcs.values(), key=lambda f: f.qn):
